@@ -569,6 +569,54 @@ def _job_reject(a, env):
                                       label + " header=%r reason=%r" % (hdr, ep.proto.wasNotCleanReason), env, a))
                 else:
                     stats["valid_response_accepted"] += 1
+    # ---- a client that offers several different compression extensions (fallbacks) and accepts any
+    # of them: a reply selecting ONE of them opens, a reply naming two DIFFERENT ones is refused
+    kinds = [("permessage-deflate", CM.PerMessageDeflateOffer, CM.PerMessageDeflateResponse,
+              CM.PerMessageDeflateResponseAccept)]
+    if hasattr(CM, "PerMessageBzip2Offer"):
+        kinds.append(("permessage-bzip2", CM.PerMessageBzip2Offer, CM.PerMessageBzip2Response,
+                      CM.PerMessageBzip2ResponseAccept))
+    if hasattr(CM, "PerMessageBrotliOffer"):
+        kinds.append(("permessage-brotli", CM.PerMessageBrotliOffer, CM.PerMessageBrotliResponse,
+                      CM.PerMessageBrotliResponseAccept))
+
+    def accept_any(r):
+        for _, _, R_, A_ in kinds:
+            if isinstance(r, R_):
+                return A_(r)
+    names = [k[0] for k in kinds]
+    replies = [(n1, False) for n1 in names]
+    replies += [("%s, %s" % (n1, n2), True) for n1 in names for n2 in names if n1 != n2]
+    replies += [("%s\r\nSec-WebSocket-Extensions: %s" % (n1, n2), True) for n1 in names for n2 in names if n1 != n2]
+    if len(names) >= 3:
+        replies.append((", ".join(names), True))
+    for hdr, must_reject in replies:
+        ep = ws.Endpoint("client", {"perMessageCompressionOffers": [k[1]() for k in kinds],
+                                    "perMessageCompressionAccept": accept_any})
+        ep.conn.settle()
+        req = bytes(ep.t.written)
+        ep.feed(ep.client_response(req, extra=b"Sec-WebSocket-Extensions: " + hdr.encode() + b"\r\n"))
+        ep.conn.settle()
+        evals += 1
+        stats["reject_cases"] += 1
+        stats["multi_offer_reply_cases"] = stats.get("multi_offer_reply_cases", 0) + 1
+        stats["tuples"] += 1
+        is_open = ep.state() == 3
+        label = "client offering %s; reply %r" % ("+".join(names), hdr)
+        if ep.conn.escapes:
+            viol.append(_viol("escape", "reject-multi", label + " " + repr(ep.conn.escapes[0])[:160], env, a))
+        if must_reject and is_open:
+            viol.append(_viol("client-accepted-unsound-response", "reject-two-different-extensions",
+                              label + ": opened, extensions in use %s" % (
+                                  [getattr(x, "EXTENSION_NAME", x) for x in ep.proto.websocket_extensions_in_use],),
+                              env, a))
+        elif must_reject:
+            stats["reject_refused"] += 1
+        elif not is_open or ep.proto._perMessageCompress is None:
+            viol.append(_viol("client-refused-valid-response", "reject-multi", label + " reason=%r" % (
+                ep.proto.wasNotCleanReason,), env, a))
+        else:
+            stats["valid_response_accepted"] += 1
     return {"evals": evals, "viol": viol, "stats": stats, "samples": [{"part": "reject", "cases": len(REJECT_CASES)}]}
 
 
